@@ -17,6 +17,9 @@ from .engine import Engine, PathEnd, HarnessError
 _CACHE = {}
 ENABLED = [os.environ.get('VERIF_NO_SUMMARIES') != '1']
 STATS = {'computed': 0, 'hits': 0, 'inner_paths': 0}
+# fallback mode (runner): the merged value is turned back into a plain bool / set by forking on its terms, so that code
+# which handles it in a way no proxy can follow (set.intersection(*views), type(x) is set, C extensions) still runs
+CONCRETE = [os.environ.get('VERIF_CONCRETE_SUMMARIES') == '1']
 
 
 def _explore_inner(fn, args, domain):
@@ -112,6 +115,11 @@ def summarized(fn, keyfn, universe=None):
         if hit[0] is None:
             return fn(*args)
         r = hit[0]
+        if CONCRETE[0]:
+            if isinstance(r, SymSet):
+                return {k for k, term in r.mem.items() if proxies.eng().branch(term)}
+            if isinstance(r, SymBool):
+                return bool(r)
         return r.copy() if isinstance(r, SymSet) else r
     wrapper.__wrapped__ = fn
     wrapper.__name__ = getattr(fn, '__name__', 'summarized')
